@@ -164,6 +164,18 @@ def blockLoc : Block → Loc
 /-- open a child scope with the initial variables `init` -/
 def St.open (s : St) (init : List Var) : St := { vars := init } :: s
 
+/-- the names of a local declaration, inserted after all initialisers were analysed: name i gets
+    expression i; surplus names refer to a trailing call or are empty -/
+def declLocals (s : St) (lastCall : Option Loc) : List (Bytes × Loc × Nat) → List Exp → St
+  | ns, [] =>
+    ns.foldl (fun s (n, nl, _) =>
+      match lastCall with
+      | some cl => s.addVar { name := n, loc := nl, ref := .call cl }
+      | none => s.addVar { name := n, loc := nl, ref := .none, expEmpty := true }) s
+  | [], _ :: _ => s
+  | (n, nl, _) :: ns, e :: es =>
+    declLocals (s.addVar { name := n, loc := nl, ref := refKindOf e, expEmpty := isNilExp e }) lastCall ns es
+
 mutual
 /-- traverse an expression: only function bodies create scopes -/
 def cgExp (s : St) : Exp → St
@@ -219,17 +231,6 @@ def cgAssign (s : St) : List Exp → List Exp → St
       | some (n, nl) => s1.repoint n nl e
       | none => markTarget (cgExp s1 v) v) vs es
 termination_by vs es => sizeOf vs + sizeOf es
-/-- local declaration: expression i, then name i; surplus names refer to a trailing call or are empty -/
-def cgLocal (s : St) (lastCall : Option Loc) : List (Bytes × Loc × Nat) → List Exp → St
-  | ns, [] =>
-    ns.foldl (fun s (n, nl, _) =>
-      match lastCall with
-      | some cl => s.addVar { name := n, loc := nl, ref := .call cl }
-      | none => s.addVar { name := n, loc := nl, ref := .none, expEmpty := true }) s
-  | [], e :: es => cgLocal (cgExp s e) lastCall [] es
-  | (n, nl, _) :: ns, e :: es =>
-    cgLocal ((cgExp s e).addVar { name := n, loc := nl, ref := refKindOf e, expEmpty := isNilExp e }) lastCall ns es
-termination_by ns es => sizeOf ns + sizeOf es
 def cgStat (s : St) : Stat → St
   | .do_ b l => St.close (cgBlock (s.open []) b) s l
   | .while_ c b l =>
@@ -252,7 +253,8 @@ def cgStat (s : St) : Stat → St
       match exps.getLast? with
       | some (.call _ _ _ l) => if nE ≤ names.length then some l else none
       | _ => none
-    cgLocal s lastCall names exps
+    -- every initialiser first (also surplus ones), then the names
+    declLocals (cgExps s exps) lastCall names exps
   | .localfn n nl f _ =>
     let fl := match f with | .mk _ _ _ _ _ _ l => l
     cgFunc (s.addVar { name := n, loc := nl, ref := .func fl }) f
